@@ -99,7 +99,7 @@ Detach(n) == /\ live[n].ty = "HexAssembly" /\ live[n].lk = "I"
              /\ act' = [n |-> "Detach", o |-> n] /\ Frame
 
 (* ------------------------------------------------ database ----------------------------------------------- *)
-Write(s) == /\ files[s] = NoFile /\ Sortable(live)
+Write(s) == /\ files[s] = NoFile /\ Sortable(live) = TRUE       \* (= TRUE: TLC must not branch on the disjunctions inside)
             /\ files' = [files EXCEPT ![s] = Flatten(live)] /\ snap' = [snap EXCEPT ![s] = live]
             /\ act' = [n |-> "Write", s |-> s] /\ UNCHANGED <<live, loaded, src>>
 WriteRefused(s) == /\ files[s] = NoFile /\ ~Sortable(live)
@@ -113,13 +113,17 @@ Resave(h, s) == /\ loaded[h] # NoState /\ files[s] = NoFile
 
 PVals == {"p", "q"}
 Temps == {"400.5", "500.0"}
-Next == \/ \E n \in MutNodes, v \in PVals : AssignParam(n, v) \/ SetComposition(n, v)
+Next == \/ \E n \in MutNodes, v \in PVals : AssignParam(n, v)
+        \/ \E n \in MutNodes, v \in PVals : SetComposition(n, v)
         \/ \E n \in MutNodes, T \in Temps : SetTemperature(n, T)
         \/ \E a, b \in Ix(live) : Swap(a, b)
-        \/ \E a \in Ix(live) : Rotate(a) \/ Detach(a)
+        \/ \E a \in Ix(live) : Rotate(a)
+        \/ \E a \in Ix(live) : Detach(a)
         \/ Grow
-        \/ \E s \in Slots : Write(s) \/ WriteRefused(s)
-        \/ \E s \in Slots, h \in Handles : Load(s, h) \/ Resave(h, s)
+        \/ \E s \in Slots : Write(s)
+        \/ \E s \in Slots : WriteRefused(s)
+        \/ \E s \in Slots, h \in Handles : Load(s, h)
+        \/ \E s \in Slots, h \in Handles : Resave(h, s)
 Spec == Init /\ [][Next]_vars
 
 (* ------------------------------------------------ properties --------------------------------------------- *)
